@@ -58,8 +58,8 @@ Orders(p) ==
 InvLaws   == ph = 1 => GroupLaws(a, b)
 InvAssoc  == ph = 1 => Assoc(a, b)
 InvRefine == ph = 1 => Refines(a, b)
-InvOrders == ph = 0 => Orders(a)
+InvOrders == (ph = 1 /\ b = Identity) => Orders(a)
 \* the group is cyclic of order 8L: exactly 8L points, and some point has order 8L
-InvCount  == ph = 0 => /\ Cardinality(Points) = 8 * BNToInt(L)
+InvCount  == (ph = 1 /\ b = Identity /\ a = Identity) => /\ Cardinality(Points) = 8 * BNToInt(L)
                        /\ \E g \in Points : EOrder(g, 8 * BNToInt(L) + 1) = 8 * BNToInt(L)
 =============================================================================
